@@ -77,6 +77,7 @@ def gen_cases(rng, tier):
                       "ep": rng.choice([0, 0, 1, 3, 17]), "en": rng.choice([0, 0, 2, 5]),
                       "sc": sc, "ec": ec, "thr": thr, "is_sorted": k % 6 == 0,
                       "dtype": pick_dtype(rng, pos + neg) if pos + neg else "float64",
+                      "derive": (rng.randint(1, 10 ** 6) if k % 4 == 2 and max(npos, nneg) <= 40 else None),
                       "history": rng.choice([None, None, None, "proportion", "replacement", "single_pass", "swap", "thresholds"])})
     return cases
 
@@ -130,7 +131,34 @@ def run_impl(case):
             c = pointwise_cm(l2, s2, thr, score_class=case["sc"], equal_class=case["ec"])
             layout_ok = layout_ok and bool(np.array_equal(a, c)) and bool(np.array_equal(b, c))
     excl = bool(np.all(pw.sum(axis=(-1, -2)) == 1)) if pw.size else True
-    return {"cm": mats, "rates": rates, "pw_sum": pw_sum, "pw_shape": pw_shape, "pw_exclusive": excl, "cm_is_sorted": raw, "pw_layout_ok": layout_ok}
+    # objects derived from this one (bootstrap samples under every built-in configuration, swap(), the same data as a
+    # GroupScores and its samples) are Scores objects too: their cm() must count their own pos / neg arrays
+    derived = []
+    if case.get("derive") and len(pos) and len(neg):
+        from score_analysis import BootstrapConfig, GroupScores
+        rs = np.random.RandomState(case["derive"])
+        pg = rs.randint(0, 2, size=len(pos))
+        ng = rs.randint(0, 2, size=len(neg))
+        gs = GroupScores(pos.astype(float), neg.astype(float), pos_groups=pg, neg_groups=ng, score_class=case["sc"], equal_class=case["ec"])
+        makers = [("swap", lambda: s.swap()), ("group-swap", lambda: gs.swap())]
+        for sm in ("replacement", "single_pass", "proportion"):
+            for st in (None, "by_label"):
+                makers.append((f"sample/{sm}/{st}", lambda sm=sm, st=st: s.bootstrap_sample(
+                    BootstrapConfig(sampling_method=sm, stratified_sampling=st, ratio=0.5 if sm == "proportion" else None))))
+        for sm in ("replacement", "single_pass"):
+            for st in (None, "by_label", "by_group"):
+                makers.append((f"group-sample/{sm}/{st}", lambda sm=sm, st=st: gs.bootstrap_sample(
+                    BootstrapConfig(sampling_method=sm, stratified_sampling=st))))
+        np.random.seed(case["derive"])
+        for what, mk in makers:
+            try:
+                d = mk()
+            except (ValueError, ZeroDivisionError):
+                continue          # configurations the sampler rejects for this object are not C01's concern
+            derived.append({"what": what, "pos": [enc(float(x)) for x in d.pos], "neg": [enc(float(x)) for x in d.neg],
+                            "ep": int(d.nb_easy_pos), "en": int(d.nb_easy_neg), "sc": str(getattr(d.score_class, "value", d.score_class)), "ec": str(getattr(d.equal_class, "value", d.equal_class)),
+                            "cm": [[int(v) for v in m.reshape(-1)] for m in d.cm(thr).matrix]})
+    return {"derived": derived, "cm": mats, "rates": rates, "pw_sum": pw_sum, "pw_shape": pw_shape, "pw_exclusive": excl, "cm_is_sorted": raw, "pw_layout_ok": layout_ok}
 
 
 def _scores_term(case):
@@ -190,6 +218,17 @@ def oracle(case, res):
             exp = None if d == 0 else enc(a / d)
             if r["rates"][name][j] != exp:
                 fails.append(("C01/rate", f"{name} at {t}: got {r['rates'][name][j]}, want {exp}"))
+    for d in r.get("derived", []):
+        dp, dn = [F(x) for x in d["pos"]], [F(x) for x in d["neg"]]
+        for j, t in enumerate(case["thr"]):
+            tv = F(t)
+            tp = sum(_dec(d["sc"], d["ec"], x, tv) for x in dp)
+            fp = sum(_dec(d["sc"], d["ec"], x, tv) for x in dn)
+            want = [tp + d["ep"], len(dp) - tp, fp, len(dn) - fp + d["en"]]
+            if d["cm"][j] != want:
+                fails.append((f"C01/derived/{d['what']}", f"cm of the derived object ({d['what']}; pos {[str(x) for x in dp][:8]}, neg "
+                              f"{[str(x) for x in dn][:8]}) at threshold {t}: got {d['cm'][j]}, counting its own scores by the decision rule gives {want}"))
+                break
     if len(margins) > 1:
         fails.append(("C01/margins", f"TP+FN / FP+TN depend on the threshold: {sorted(margins)}"))
     if not r["pw_exclusive"]:
